@@ -49,7 +49,7 @@ def parseState : List String → Option OState
 def parseSnap : List String → Option (Nat × Snap)
   | [i, c, q, p, k, a, b, d] =>
     match i.toNat?, c.toNat?, parseRat? q, parseRat? p, parseState [k, a, b, d] with
-    | some i, some c, some q, some p, some st => some (i, ⟨c, q, p, st⟩)
+    | some i, some c, some q, some p, some st => some (i, ⟨c, q, p, st, 0⟩)
     | _, _, _, _, _ => none
   | _ => none
 
